@@ -72,7 +72,9 @@ class QuadraticBezier(ArcLengthMixin, Segment):
     def flatten(self, degree=8):
         ss = []
         if self.length < degree:
-            return [Line(self[0], self[2])]
+            line = Line(self[0], self[2])
+            line._orig = self
+            return [line]
         samples = self.sample(self.length / degree)
         for i in range(1, len(samples)):
             line = Line(samples[i - 1], samples[i])
